@@ -557,6 +557,15 @@ def c46(scn, run):
     return None
 
 
+def _crash_ticks(tr):
+    tick = None
+    for e in tr:
+        if e["e"] == "tick":
+            tick = e["n"]
+        elif e["e"] == "crash":
+            yield tick
+
+
 def c20(scn, run):
     """crash + restart: no job launched twice under one submit number, no completed instance re-run,
     same work as the uninterrupted run"""
@@ -564,10 +573,16 @@ def c20(scn, run):
     launched = {}
     completed = set()
     double = None
+    tick = None
+    crash_ticks = {e2_tick for e2_tick in _crash_ticks(tr)}
+    first_launch_tick = {}
     for e in tr:
+        if e["e"] == "tick":
+            tick = e["n"]
         if e["e"] == "submit_result":
             k = (tuple(e["id"]), e["submit_num"])
             launched[k] = launched.get(k, 0) + 1
+            first_launch_tick.setdefault(k, tick)
             if launched[k] > 1 and double is None:
                 double = k
         elif e["e"] == "remove" and e["reason"] == "completed":
@@ -578,8 +593,27 @@ def c20(scn, run):
                     return f"{p}/{n} was finished and complete, yet it was submitted again (submit number {sn}) after the restart"
     if double is not None:
         (p, n), sn = double
-        return (f"job {p}/{n}/{sn:02d} launched twice under the same submit number "
-                f"(the scheduler died after launching it and before committing that it was submitted)")
+        if first_launch_tick.get(double) in crash_ticks:
+            return (f"job {p}/{n}/{sn:02d} launched twice under the same submit number "
+                    f"(the scheduler died after launching it and before committing that it was submitted)")
+        return (f"job {p}/{n}/{sn:02d} was launched again under the same submit number although its first launch was in main-loop "
+                f"iteration {first_launch_tick.get(double)}, which completed (and committed) before the crash")
+    # a child spawned in the crash iteration whose parent's completion was flushed to the database by TaskPool.remove()
+    # before the end-of-iteration write of the task_pool table: after the restart it is neither pooled nor respawned
+    spawned_in_crash_tick, tick, after = set(), None, False
+    for e in tr:
+        if e["e"] == "tick":
+            tick = e["n"]
+        elif e["e"] == "spawn" and tick in crash_ticks and not after:
+            spawned_in_crash_tick.add(tuple(e["t"]["id"]))
+        elif e["e"] == "crash":
+            after = True
+        elif e["e"] == "spawn_none" and after and tuple(e["id"]) in spawned_in_crash_tick:
+            sub = {tuple(j[:2]) for x in tr if x["e"] == "submit" for j in x["jobs"]}
+            if tuple(e["id"]) not in sub:
+                return (f"{e['id']} was spawned in the main-loop iteration in which the scheduler died; its spawning was committed "
+                        f"(task_states row, flushed by TaskPool.remove of its parent) but the task_pool table was not yet rewritten: "
+                        f"after the restart it is not in the pool and is refused when its parent's output spawns it again, so it never runs")
     # crash during the very first main-loop iteration: nothing was committed yet
     prev_pool = None
     first_commit_done = False
@@ -603,6 +637,15 @@ def c20(scn, run):
             lost_custom = {k: sorted(set(bd[k]) - set(ad.get(k, []))) for k in bd
                            if k in ad and set(ad[k]) < set(bd[k]) and not (set(bd[k]) - set(ad[k])) & std}
             if lost_custom:
+                dt, tick = {}, None
+                for e in tr:
+                    if e["e"] == "tick":
+                        tick = e["n"]
+                    elif e["e"] == "deliver":
+                        dt.setdefault((tuple(e["id"]), e["message"].replace("msg-", "")), tick)
+                if not all(dt.get((k, o)) in crash_ticks for k, os_ in lost_custom.items() for o in os_):
+                    return (f"custom output(s) lost although their messages were processed in an iteration that completed "
+                            f"(and committed) before the crash: {lost_custom}")
                 return ("custom output(s) lost by the crash: the job's message was accepted and processed in memory, the "
                         f"scheduler died before committing it and the job does not send it again: {lost_custom}")
             if b["submitted"] != a["submitted"]:
